@@ -476,6 +476,9 @@ impl IoLoop {
         if result.is_err() {
             match state {
                 HandshakeState::ServerClosing(_) => {
+                    // (the peer may have shut down its sending side only and be waiting
+                    // for the CloseOk: it gets its one chance to go out)
+                    let _ = self.inner.write_to_stream(stream);
                     self.inner.outbuf.clear();
                     return Ok(true);
                 }
@@ -568,6 +571,18 @@ impl IoLoop {
                     // hitting EOF (or a reset) in the same pass is not an error.
                     if let ConnectionState::ClientClosed = state {
                         return Ok(());
+                    }
+                    if result.is_err() {
+                        match state {
+                            ConnectionState::ServerClosing(_) | ConnectionState::ClientException => {
+                                // That nothing more can be read says nothing about the
+                                // other direction (the peer may have shut down its sending
+                                // side only and be waiting for our answer): what is queued
+                                // - the CloseOk, our Close - gets its one chance to go out.
+                                let _ = self.inner.write_to_stream(stream);
+                            }
+                            _ => {}
+                        }
                     }
                     if self.socket_failed_behind_server_close(state, &result) {
                         return Ok(());
